@@ -33,10 +33,77 @@ def load_catalogue():
     for p in sorted({m["prop"] for m in cat}):
         cat.append({"id": "%s-eq-reformat" % p.lower(), "prop": p, "kind": "equiv", "transform": "unparse", "edits": [],
                     "why": "ast.unparse of every module: behaviour identical, text different", "source": "builtin"})
+    for p in sorted({m["prop"] for m in cat}):
+        cat.append({"id": "%s-eq-rename-locals" % p.lower(), "prop": p, "kind": "equiv", "transform": "rename-locals", "edits": [],
+                    "why": "every function-local name gets a suffix (and the tree is re-emitted): behaviour identical", "source": "builtin"})
     return cat
 
 
-def reformat_tree(dest):
+class _RenameLocals:
+    """x -> x_ for every function-local name that no nested scope mentions"""
+
+    def run(self, tree):
+        import ast
+
+        outer = self
+
+        class R(ast.NodeTransformer):
+            def __init__(self):
+                self.stack = []
+
+            def visit_FunctionDef(self, node):
+                params = {a.arg for a in node.args.args + node.args.kwonlyargs + node.args.posonlyargs}
+                if node.args.vararg:
+                    params.add(node.args.vararg.arg)
+                if node.args.kwarg:
+                    params.add(node.args.kwarg.arg)
+                assigned, declared, inner_used = set(), set(), set()
+                scopes = (ast.FunctionDef, ast.Lambda, ast.ClassDef, ast.ListComp, ast.SetComp, ast.DictComp, ast.GeneratorExp)
+
+                def own(n):
+                    for ch in ast.iter_child_nodes(n):
+                        if isinstance(ch, scopes):
+                            for x in ast.walk(ch):
+                                if isinstance(x, ast.Name):
+                                    inner_used.add(x.id)
+                            continue
+                        yield ch
+                        yield from own(ch)
+
+                for n in own(node):
+                    if isinstance(n, ast.Name) and isinstance(n.ctx, (ast.Store, ast.Del)):
+                        assigned.add(n.id)
+                    if isinstance(n, (ast.Global, ast.Nonlocal)):
+                        declared.update(n.names)
+                ren = {x for x in assigned if x not in params and x not in declared and x not in inner_used and not x.startswith("__")}
+                self.stack.append(ren)
+                node.body = [self.visit(s) for s in node.body]
+                self.stack.pop()
+                return node
+
+            def visit_Lambda(self, node):
+                return node
+
+            def visit_ClassDef(self, node):
+                self.stack.append(set())
+                self.generic_visit(node)
+                self.stack.pop()
+                return node
+
+            def visit_ListComp(self, node):
+                return node
+
+            visit_SetComp = visit_DictComp = visit_GeneratorExp = visit_ListComp
+
+            def visit_Name(self, node):
+                if self.stack and node.id in self.stack[-1]:
+                    node.id = node.id + "_"
+                return node
+
+        return R().visit(tree)
+
+
+def reformat_tree(dest, rename=False):
     import ast
     for base in ("hypnotoad", "examples"):
         for dp, dn, fn in os.walk(os.path.join(dest, base)):
@@ -48,7 +115,10 @@ def reformat_tree(dest):
                     with open(p) as fh:
                         src = fh.read()
                     try:
-                        out = ast.unparse(ast.parse(src)) + "\n"
+                        tree = ast.parse(src)
+                        if rename:
+                            tree = _RenameLocals().run(tree)
+                        out = ast.unparse(tree) + "\n"
                     except SyntaxError:
                         continue
                     with open(p, "w") as fh:
@@ -79,6 +149,8 @@ def run_one(m, root):
                 f.write(s.replace(e["old"], e["new"]))
         if m.get("transform") == "unparse":
             reformat_tree(tmp)
+        elif m.get("transform") == "rename-locals":
+            reformat_tree(tmp, rename=True)
         env = dict(os.environ)
         env["VERIF_REPO"] = tmp
         env["HV_EVIDENCE_DIR"] = os.path.join(tmp, "_ev")
